@@ -23,7 +23,8 @@ macro "step_cases" hs:ident : tactic =>
 /-- finish a per-stream goal about `s'.str j` after `step_cases`: unfold the point update, split on `j = i`, then
     arithmetic / propositional clean-up -/
 macro "upd_finish" : tactic =>
-  `(tactic| (simp only [upd, Str.closeBuf, Str.discard, Str.gone, unblockAll, Guards.sendDataEnds, Guards.bufferComplete] at * <;>
+  `(tactic| (simp only [upd, Str.closeBuf, Str.discard, Str.gone, unblockAll, Guards.sendDataEnds, Guards.bufferComplete, Guards.bufferPopEmpty,
+                        Guards.bufferDrainClears] at * <;>
       (repeat' split) <;> (try subst_vars) <;> (try simp_all) <;>
       (first | done | omega | grind)))
 
@@ -43,10 +44,11 @@ theorem statement_order_assumed :
     Atomic.h2ClosedBranch = ["self._reset_abandoned_response", "self._close_stream"] ∧
     Atomic.h2SendTask = ["next", "self.has_data.wait", "self.has_data.clear", "self._send_data"] ∧
     Atomic.h2SendDataTry = ["min", "self.connection.local_flow_control_window", "max", "self.stream_buffers[stream_id].pop",
-                            "self.connection.send_data", "self._flush", "self.priority.block", "self.connection.end_stream", "self._flush",
-                            "self.priority.remove_stream"] ∧
+                            "self.connection.send_data", "self._flush", "self.priority.block", "self._end_stream", "self._flush",
+                            "self.stream_buffers[stream_id].close", "self.priority.remove_stream"] ∧
     Atomic.h2BufferPush = ["BufferCompleteError", "self.buffer.extend", "self._is_empty.clear", "len", "self._paused.wait", "self._paused.clear"] ∧
-    Atomic.h2BufferClose = ["self._complete = True", "self.buffer = bytearray()", "await self._is_empty.set()", "await self._paused.set()"] := by
+    Atomic.h2BufferClose = ["self._complete = True", "self._closed = True", "self.buffer = bytearray()", "await self._is_empty.set()",
+                            "await self._paused.set()"] := by
   decide
 
 /-- the `except` clauses the model's "swallowed" branches stand for -/
@@ -228,17 +230,19 @@ theorem nobuf_step (s s' : St) (o : Op) (h : NoBuf s) (hf : Fin s) (he : Ending 
       | exact hj
       | (have hall := h; have hallf := hf; have halle := he; unfold NoBuf at hall; unfold Fin at hallf; unfold Ending at halle; upd_finish)
 
-theorem drop_step (s s' : St) (o : Op) (h : Drop s) (hn : NoBuf s) (hf : Fin s) (ha : Aband s) (hs : step s o = some s') : Drop s' := by
+theorem drop_step (s s' : St) (o : Op) (h : Drop s) (hn : NoBuf s) (hf : Fin s) (ha : Aband s) (he : Ending s)
+    (hs : step s o = some s') : Drop s' := by
   intro j
   have hj := h j
   have hnj := hn j
   have hfj := hf j
   have haj := ha j
+  have hej := he j
   cases o <;> step_cases hs <;>
     first
       | exact hj
-      | (have hall := h; have halln := hn; have hallf := hf; have halla := ha
-         unfold Drop at hall; unfold NoBuf at halln; unfold Fin at hallf; unfold Aband at halla; upd_finish)
+      | (have hall := h; have halln := hn; have hallf := hf; have halla := ha; have halle := he
+         unfold Drop at hall; unfold NoBuf at halln; unfold Fin at hallf; unfold Aband at halla; unfold Ending at halle; upd_finish)
 
 /-- a stream that was opened and has lost its buffer was either ended or reset -/
 def Gone (s : St) : Prop := ∀ i, (s.str i).opened = true → (s.str i).hasBuf = false → (s.str i).ended = true ∨ (s.str i).libClosed = true
@@ -253,9 +257,36 @@ theorem gone_step (s s' : St) (o : Op) (h : Gone s) (he : Ending s) (ha : Aband 
       | exact hj
       | (have hall := h; have halle := he; have halla := ha; unfold Gone at hall; unfold Ending at halle; unfold Aband at halla; upd_finish)
 
+/-- a sender waiting in `drain()` is waiting on a complete buffer, and its `_is_empty` is only set by `close()` -/
+def DrainEv (s : St) : Prop := ∀ i, (s.str i).pusher = .inDrain →
+  (s.str i).complete = true ∧ ((s.str i).emptyEv = true → (s.str i).bufClosed = true)
+
+theorem drainEv_step (s s' : St) (o : Op) (h : DrainEv s) (hs : step s o = some s') : DrainEv s' := by
+  intro j
+  have hj := h j
+  cases o <;> step_cases hs <;>
+    first
+      | exact hj
+      | (have hall := h; unfold DrainEv at hall; upd_finish)
+
+/-- a buffer is closed only when its stream was ended or reset, or the connection is closed -/
+def BufClosed (s : St) : Prop := ∀ i, (s.str i).bufClosed = true → (s.str i).ended = true ∨ (s.str i).libClosed = true ∨ s.closed = true
+
+theorem bufClosed_step (s s' : St) (o : Op) (h : BufClosed s) (he : Ending s) (ha : Aband s) (hs : step s o = some s') : BufClosed s' := by
+  intro j
+  have hj := h j
+  have hej := he j
+  have haj := ha j
+  cases o <;> step_cases hs <;>
+    first
+      | exact hj
+      | (have hall := h; have halle := he; have halla := ha; unfold BufClosed at hall; unfold Ending at halle; unfold Aband at halla; upd_finish)
+
 /-! ### all together, for every run -/
 
 structure Inv (s : St) : Prop where
+  drainEv : DrainEv s
+  bufClosed : BufClosed s
   acct : Acct s
   win : Win s
   cwin : CWin s
@@ -270,12 +301,12 @@ structure Inv (s : St) : Prop where
   gone : Gone s
 
 theorem inv_init (cw : Int) (mf : Nat) (h : 0 < mf) : Inv (init cw mf) := by
-  constructor <;> simp [init, Acct, Win, CWin, Tree, Stall, Sleep, Aband, NoBuf, Fin, Drop, Ending, Gone, deadlock, h]
+  constructor <;> simp [init, DrainEv, BufClosed, Acct, Win, CWin, Tree, Stall, Sleep, Aband, NoBuf, Fin, Drop, Ending, Gone, deadlock, h]
 
 theorem inv_step (s s' : St) (o : Op) (h : Inv s) (hp : opOk s o) (hs : step s o = some s') : Inv s' :=
-  ⟨acct_step s s' o h.acct hs, win_step s s' o h.win hs, cwin_step s s' o h.cwin hs, tree_step s s' o h.tree hs,
+  ⟨drainEv_step s s' o h.drainEv hs, bufClosed_step s s' o h.bufClosed h.ending h.aband hs, acct_step s s' o h.acct hs, win_step s s' o h.win hs, cwin_step s s' o h.cwin hs, tree_step s s' o h.tree hs,
    stall_step s s' o h.stall h.tree hs, sleep_step s s' o h.sleep hp hs, aband_step s s' o h.aband hs,
-   nobuf_step s s' o h.nobuf h.fin h.ending hs, fin_step s s' o h.fin h.drop hs, drop_step s s' o h.drop h.nobuf h.fin h.aband hs,
+   nobuf_step s s' o h.nobuf h.fin h.ending hs, fin_step s s' o h.fin h.drop hs, drop_step s s' o h.drop h.nobuf h.fin h.aband h.ending hs,
    ending_step s s' o h.ending hs, gone_step s s' o h.gone h.ending h.aband hs⟩
 
 /-- a run in which every op meets `opOk` (`park` only at deadlock) -/
@@ -357,6 +388,18 @@ theorem in_order_complete (s : St) (hr : Reachable s) (i : Nat) :
   obtain ⟨h1, h2, h3⟩ := hI.fin i he
   have := hI.acct i
   exact ⟨by omega, h1⟩
+
+/-- **the final send returns only after END_STREAM**: a sender waiting in `drain()` (the application's send of the end of the
+    body) can only resume — its `_is_empty` is only set — when END_STREAM has been sent, or the stream was reset, or the
+    connection is closed -/
+theorem drain_returns_after_end (s : St) (hr : Reachable s) (i : Nat) (hp : (s.str i).pusher = .inDrain)
+    (he : (step s (.drainWake i)).isSome = true) :
+    (s.str i).ended = true ∨ (s.str i).libClosed = true ∨ s.closed = true := by
+  have hI := reachable_inv s hr
+  have hev : (s.str i).emptyEv = true := by
+    simp only [step] at he
+    split at he <;> simp_all
+  exact hI.bufClosed i ((hI.drainEv i hp).2 hev)
 
 /-- **END_STREAM at most once**: an op that sends END_STREAM for stream `i` (it moves the send task to `ending i`) is
     never enabled for a stream that was already ended -/
@@ -445,6 +488,31 @@ def opStream : Op → Option Nat
 theorem stream_op_frame (s s' : St) (o : Op) (i j : Nat) (ho : opStream o = some i) (hij : j ≠ i) (hs : step s o = some s') :
     s'.str j = s.str j := by
   cases o <;> simp only [opStream, Option.some.injEq, reduceCtorEq] at ho <;> subst ho <;> step_cases hs <;> simp [upd, hij]
+
+/-! ### facts other properties cite (C16: both workers' event wrappers behave alike on this glue) -/
+
+/-- `H2Protocol.handle(Closed)` twice = once (streams are already popped, buffers already closed, `has_data` already set) -/
+theorem closed_idempotent (s s1 s2 : St) (h1 : step s .closed = some s1) (h2 : step s1 .closed = some s2) :
+    s2.closed = s1.closed ∧ s2.hasData = s1.hasData ∧ s2.connWin = s1.connWin ∧ s2.task = s1.task ∧ ∀ i, s2.str i = s1.str i := by
+  simp only [step, Option.some.injEq] at h1 h2
+  subst h1
+  subst h2
+  refine ⟨rfl, rfl, rfl, rfl, ?_⟩
+  intro i
+  simp only
+  cases hb : (s.str i).hasBuf <;> simp [hb, Str.closeBuf]
+
+/-- **every `clear()` of an event is taken by the event's only possible waiter, while it is not waiting**:
+    `_is_empty.clear()` (in `push`, and in `drain` of a completed buffer) — by the stream's single sender, which is then not
+    parked in `drain()`; `_paused.clear()` — by the sender itself after its own `wait()`; `has_data.clear()` — by the send task
+    itself after its own `wait()`.  (This is what makes trio's replace-the-event-on-clear wrapper indistinguishable from
+    asyncio's on this code.) -/
+theorem clear_has_no_foreign_waiter (s s' : St) (o : Op) (h : step s o = some s') :
+    (∀ i n, o = .push i n → (s.str i).pusher = .idle) ∧
+    (∀ i, o = .end_ i → (s.str i).pusher = .idle) ∧
+    (∀ i, o = .pushWake i → (s.str i).pusher = .inPush ∧ (s'.str i).pusher = .idle) ∧
+    (o = .wake → s.task = .parked ∧ s'.task = .running) := by
+  refine ⟨fun i n ho => ?_, fun i ho => ?_, fun i ho => ?_, fun ho => ?_⟩ <;> subst ho <;> step_cases h <;> simp_all [upd]
 
 /-! ### quiescent rather than spinning -/
 
